@@ -576,8 +576,14 @@ func c12WalkJournal(f int, incs []int, long bool, ver int) *m.Journal {
 		j.Entries = append(j.Entries, m.Entry{Dir: &m.Directive{Kind: "include", Path: walkRel(f, k)}})
 	}
 	acct := fmt.Sprintf("assets:f%dv%d", f, ver)
+	// every file declares its own format for EUR and its own postings for the payee "shared":
+	// which one the workspace shows depends on the order of the include directives alone
 	j.Entries = append(j.Entries,
 		m.Entry{Dir: &m.Directive{Kind: "account", Account: acct}, Blank: 1},
+		m.Entry{Dir: &m.Directive{Kind: "commodity", Fmt: &m.Fmt{Sym: "EUR", Space: true, Dec: ".", Decimals: f + 1}}, Blank: 1},
+		m.Entry{Tx: &m.Tx{Date: m.Date{Y: 2024, M: 1, D: f + 1, Sep: "-", Pad: true}, Payee: "shared",
+			Body: []m.BodyItem{{P: &m.Posting{Account: fmt.Sprintf("expenses:from f%d", f), Amt: &m.Amount{Q: m.Num{Mant: "1"}, Sym: "EUR", SymSpace: true}, Indent: "    ", Sep: "  "}},
+				{P: &m.Posting{Account: "equity:opening", Indent: "    ", Sep: "  "}}}}, Blank: 1},
 		m.Entry{Tx: &m.Tx{Date: m.Date{Y: 2024, M: 1, D: f + 1, Sep: "-", Pad: true}, Payee: fmt.Sprintf("payee %d", f),
 			Body: []m.BodyItem{{P: &m.Posting{Account: acct, Amt: &m.Amount{Q: m.Num{Mant: fmt.Sprint(ver + 1)}, Sym: "EUR", SymSpace: true}, Indent: "    ", Sep: "  "}},
 				{P: &m.Posting{Account: "equity:opening", Indent: "    ", Sep: "  "}}}}, Blank: 1})
